@@ -161,22 +161,22 @@ META = {
         "technique": "Coq model + stage theorem (structural induction) + refutation witnesses; differential correspondence model vs real gateway; RefExec oracle",
     },
     "C04": {
-        "text": "Theorems C04_only_client_fields (every field of every step at any depth is a client field or helper-aliased plumbing; all schemas, tables, selections) and C04_refuted_shared_remote_abstract (validity against the receiving schema is false on a published federation; known finding). Tie: every downstream document observed from the real gateway is validated with gqlparser against the receiving service's own schema, operation type and keyword are checked, ids are checked duplicate-free, and the multiset of requests must equal the model's.",
+        "text": "Theorems C04_only_client_fields (every field of every step at any depth is a client field or helper-aliased plumbing; all schemas, tables, selections) and C04_refuted_shared_remote_abstract (validity against the receiving schema is false on a published federation; known finding). Tie: every downstream document observed from the real gateway is validated with gqlparser against the receiving service's own schema, operation type and keyword are checked, ids are checked duplicate-free, and the multiset of requests must equal the model's. C04_ids_never_repeated: every request of the whole gateway model carries duplicate-free ids (batches included), for every world and operation.",
         "note": "valid_doc is my subset of GraphQL validation (field existence, leaf/composite shape, fragment conditions); the simulator's verdict comes from gqlparser itself. Ownership (plan_owned) not yet a theorem.",
         "technique": "Coq stage theorem + refutation witness; correspondence of request multisets; gqlparser validation at the simulators",
     },
     "C02": {
-        "text": "Model of result merging, null propagation (as repaired by fix commits 17e5b21, 694d7a8, c3464ca) and the response writer (Model/MergeRes.v, Shape.v) inside the gateway model; proved for all inputs so far: step failures always become error entries naming the service, and the planner fabricates no field. Tie + direct oracle on every run: random queries under injected faults (status, transport, timeout, oversize, bad JSON, errors with null/partial data, on single requests, lookup types, whole services, everything at once) and non-conforming data; the response must be reproduced exactly by the model, and a schema- and query-directed validator written from the GraphQL spec (valid_obj: exactly the requested keys, once, in order; no helper keys; no null at a non-null position) must accept the observed data.",
+        "text": "Model of result merging, null propagation (as repaired by fix commits 17e5b21, 694d7a8, c3464ca) and the response writer (Model/MergeRes.v, Shape.v) inside the gateway model; proved for all inputs so far: step failures always become error entries naming the service, and the planner fabricates no field. Tie + direct oracle on every run: random queries under injected faults (status, transport, timeout, oversize, bad JSON, errors with null/partial data, on single requests, lookup types, whole services, everything at once) and non-conforming data; the response must be reproduced exactly by the model, and a schema- and query-directed validator written from the GraphQL spec (valid_obj: exactly the requested keys, once, in order; no helper keys; no null at a non-null position) must accept the observed data. Also proved at the level of the whole gateway model: C02_always_answers (for every generation, world, fault assignment, operation and permission set a response is produced) and C02_no_data_means_error.",
         "note": "S-bubble (no non-null null for every input) is not yet a theorem; it is decided per case by valid_obj on observed data and by the correspondence with the model. Known findings of the response shaper (duplicate keys, emptied selections) are attributed by their guards.",
         "technique": "Coq model + invariant proofs on the execution skeleton; differential correspondence under fault injection; spec-derived response validator evaluated in Coq on observed responses",
     },
     "C03": {
-        "text": "Theorems C03_filter_sound (every field surviving filterFields lies on an allowed path; all trees, all selections), C03_walk_is_spec (the walk equals the documented allows relation) and plan_sub (nothing but surviving fields is requested downstream). Tie + oracles: random permission trees (allow-all, list, nested, documented empty-leaf forms, abstract types) x random queries through the real gateway; the model must reproduce requests/response/errors; the observed response must be valid for the independently filtered query, every (type, field) requested downstream must occur in the filtered query (or be id/__typename plumbing), the number of 'access disallowed' errors must equal the number of removed fields, and the data must equal the reference executor on the filtered query.",
+        "text": "Theorems C03_filter_sound (every field surviving filterFields lies on an allowed path; all trees, all selections), C03_walk_is_spec (the walk equals the documented allows relation) and plan_sub (nothing but surviving fields is requested downstream). Tie + oracles: random permission trees (allow-all, list, nested, documented empty-leaf forms, abstract types) x random queries through the real gateway; the model must reproduce requests/response/errors; the observed response must be valid for the independently filtered query, every (type, field) requested downstream must occur in the filtered query (or be id/__typename plumbing), the number of 'access disallowed' errors must equal the number of removed fields, and the data must equal the reference executor on the filtered query. C03_filter_is_the_specification: the model of filterFields returns exactly the selection and exactly the reported paths of Model/PermSpec.v, a specification written from the documentation with path membership alone (which the oracle of this check also uses).",
         "note": "FilterSchema is taken from the real code (the filtered schema is an input of the model); its agreement with filterFields is C18/C17 territory. Completeness of the filter (allowed implies kept) not yet a theorem.",
         "technique": "Coq stage theorems (structural induction over selection and permission trees) + differential correspondence + independent spec filter as oracle",
     },
     "C05": {
-        "text": "Theorems C05_named_root / C05_named_lookup (every recorded step failure names its service; invariant over the execution skeleton for all plans, worlds, fault assignments). Tie + oracles: every faulty run is paired with the fault-free run of the same request: the faulty data must be the fault-free data with subtrees replaced by null, a difference must be accompanied by an error, every service-failure error must carry the service identity, and when every request to a service fails hard the data must equal the reference executor with that service's fields raising errors.",
+        "text": "Theorems C05_named_root / C05_named_lookup (every recorded step failure names its service; invariant over the execution skeleton for all plans, worlds, fault assignments). Tie + oracles: every faulty run is paired with the fault-free run of the same request: the faulty data must be the fault-free data with subtrees replaced by null, a difference must be accompanied by an error, every service-failure error must carry the service identity, and when every request to a service fails hard the data must equal the reference executor with that service's fields raising errors. C05_every_downstream_error_names_its_service lifts the per-step theorems to the whole gateway model.",
         "note": "Containment of the nulled positions to fields owned by the failing service is decided through the whole-service oracle and the model correspondence, not by a separate theorem yet.",
         "technique": "Coq invariant proof + paired fault-free/faulty differential runs + reference executor with failing owners",
     },
@@ -186,7 +186,7 @@ META = {
         "technique": "Coq stage theorems + differential correspondence + reference executor",
     },
     "C16": {
-        "text": "Theorems C16_root_field_once (a root field with an owner is routed to exactly one service, its owner, for every set of distinct services) and C16_no_invented_field. Tie + oracles: random mutation documents (several root fields over several services, namespaced mutations, fragments on Mutation, results extended by other services) with faults on the mutation and on follow-ups; the simulators count side effects: per service the effects must be exactly the client's fields in the client's order (at most once under faults), mutation requests carry operationType=mutation, every other request is a query lookup, no service receives an effect it does not own; model correspondence on requests and response.",
+        "text": "Theorems C16_root_field_once (a root field with an owner is routed to exactly one service, its owner, for every set of distinct services) and C16_no_invented_field. Tie + oracles: random mutation documents (several root fields over several services, namespaced mutations, fragments on Mutation, results extended by other services) with faults on the mutation and on follow-ups; the simulators count side effects: per service the effects must be exactly the client's fields in the client's order (at most once under faults), mutation requests carry operationType=mutation, every other request is a query lookup, no service receives an effect it does not own; model correspondence on requests and response. C16_operation_types: in the whole gateway model every entity lookup is a query and a root request is a mutation exactly when its parent type is Mutation.",
         "note": "No-retry is argued from the model's exec skeleton visiting each step once and confirmed by effect counts under faults; causality (lookups after the mutation's reply) is by construction of executeRootStep and observed via request order.",
         "technique": "Coq routing theorem + side-effect counting simulators + differential correspondence",
     },
@@ -216,12 +216,12 @@ META = {
         "technique": "Coq state-machine model with proofs and refutation witnesses + differential correspondence on scripted edit histories",
     },
     "C14": {
-        "text": "Theorem C14_string_roundtrip_partial: for EVERY byte string free of the bytes whose Go escape is not a GraphQL escape, the GraphQL string lexer reads back from strconv.Quote's output exactly the string (proved by induction over the string with a 256-way case analysis per byte); C14_refuted_go_escapes shows each excluded byte alone breaks it; C14_literal_arrives_partial / C14_refuted_space_runs cover the whitespace collapse inside lookups. These transformations are part of the gateway model (every outgoing document is 'printed and lexed'), so the correspondence checks them on every run: hostile strings (whitespace runs, quotes, backslashes, control bytes, non-ASCII) as literals, variables and entity ids, through echo resolvers at the simulators; the values coming back must equal the reference executor's.",
+        "text": "Theorem C14_string_roundtrip_partial: for EVERY byte string free of the bytes whose Go escape is not a GraphQL escape, the GraphQL string lexer reads back from strconv.Quote's output exactly the string (proved by induction over the string with a 256-way case analysis per byte); C14_refuted_go_escapes shows each excluded byte alone breaks it; C14_literal_arrives_partial / C14_refuted_space_runs cover the whitespace collapse inside lookups. These transformations are part of the gateway model (every outgoing document is 'printed and lexed'), so the correspondence checks them on every run: hostile strings (whitespace runs, quotes, backslashes, control bytes, non-ASCII) as literals, variables and entity ids, through echo resolvers at the simulators; the values coming back must equal the reference executor's. C14_string_arrives_exactly_or_not_at_all: whenever the printed document lexes, the service reads exactly the client's string (wire_string s = Some s' implies s' = s and s is GraphQL-safe).",
         "note": "Two recorded findings (Go escapes, space runs) with their guards. Variable declaration/forwarding is checked by prop.c15.vars_exact on every stream.",
         "technique": "Coq codec theorem (induction + exhaustive byte analysis) + refutations; echo resolvers; differential correspondence",
     },
     "C07": {
-        "text": "Model of merge.go (MergeSchemas, mergeTypes, namespace and boundary object merging, and the three table builders) in Model/Merge.v. Theorems: the fields of a merged shared type are exactly the union of both sides' fields minus the key (C07_shared_type_fields_are_the_union); nothing enters by silent resolution of a conflict (C07_nothing_enters_by_silent_resolution). Tie + oracle on every run: random federations generated from an annotated monolith and split by the documented rules; the model's merged schema and Locations/IsBoundary/BoundaryQueries must equal what the real code published after polling; the published schema must equal the monolith the services were split from (types, kinds, fields, arguments with defaults, nullability, interfaces, members, enum values), contain no plumbing, and every field must have exactly one declaring service to which Locations routes it.",
+        "text": "Model of merge.go (MergeSchemas, mergeTypes, namespace and boundary object merging, and the three table builders) in Model/Merge.v. Theorems: the fields of a merged shared type are exactly the union of both sides' fields minus the key (C07_shared_type_fields_are_the_union); nothing enters by silent resolution of a conflict (C07_nothing_enters_by_silent_resolution). Tie + oracle on every run: random federations generated from an annotated monolith and split by the documented rules; the model's merged schema and Locations/IsBoundary/BoundaryQueries must equal what the real code published after polling; the published schema must equal the monolith the services were split from (types, kinds, fields, arguments with defaults, nullability, interfaces, members, enum values), contain no plumbing, and every field must have exactly one declaring service to which Locations routes it. C07_merged_types_are_the_union: for two or more services the merged schema has exactly the types the services define minus the plumbing (fold invariant over any number of services).",
         "note": "Validity of the merged schema is established by comparison with the (gqlparser-loaded) monolith. Full completeness/soundness of the fold over n schemas is not yet a theorem.",
         "technique": "Coq model + fold-invariant proofs; generated federations; monolith oracle; differential correspondence of merged schema and routing tables",
     },
